@@ -144,9 +144,13 @@ Proof. exact branched_delete_necessary. Qed.
 Theorem C06_branched_resurrect_necessary :
   shapes (w_resurrect ++ catch_up default_policy 0) = (false, true, false) /\ diverged default_policy w_resurrect = true.
 Proof. exact branched_resurrect_necessary. Qed.
-Theorem C06_unsendable_write_necessary :
+Theorem C06_unsendable_write_necessary : null_merge_is_delete = false ->
   shapes (w_null ++ catch_up null_policy 0) = (false, false, true) /\ diverged null_policy w_null = true.
 Proof. exact unsendable_write_necessary. Qed.
+(* with the repair /tmp/c06-fix-nullmerge.diff (model switch Switches.null_merge_is_delete) the same history converges *)
+Theorem C06_null_merge_repaired : null_merge_is_delete = true ->
+  shapes (w_null ++ catch_up null_policy 0) = (false, false, false) /\ diverged null_policy w_null = false.
+Proof. exact null_merge_repaired. Qed.
 
 (* D. Beyond the three recorded final states (deleted / live, live / deleted, two different tombstones): BOTH peers
       live with different revisions.  The lost delete of shape 1 followed by a resurrection: the PUT extends the OLD
@@ -222,9 +226,17 @@ Proof. vm_compute. repeat split; reflexivity. Qed.
 (*    F2. a resolver that answers null *)
 Definition ops_null_vv : list gop := [GEdit 1 0 2 10; GEdit 2 0 3 20; gpull 1 (rs_fun RSNil) 0 30; gpush 1 0].
 
-Theorem C06_null_merge_diverges_vv :
+Theorem C06_null_merge_diverges_vv : null_merge_is_delete = false ->
   greg_from gsys0 (ops_null_vv ++ [gpull 1 (rs_fun RSNil) 0 0; gpush 1 0]) = false /\
   let s := grun gsys0 ops_null_vv in
   vobs (gdoc s 1 0) = Some ((1, 30), 1, false) /\ vobs (gdoc s 2 0) = Some ((2, 20), 3, false) /\
   gstatus_of s (gpush 1 0) = GError /\ gstatus_of s (gpull 1 (rs_fun RSNil) 0 0) = GKnown.
-Proof. vm_compute. repeat split; reflexivity. Qed.
+Proof. intros H. revert H. vm_compute. intros H. first [discriminate H | repeat split; reflexivity]. Qed.
+
+(* ... and with the repair: the merged revision is a tombstone carrying the merge's new version, the history is regular
+   and the push delivers it *)
+Theorem C06_null_merge_repaired_vv : null_merge_is_delete = true ->
+  greg_from gsys0 ops_null_vv = true /\
+  let s := grun gsys0 ops_null_vv in
+  vobs (gdoc s 1 0) = Some ((1, 30), 0, true) /\ vobs (gdoc s 2 0) = Some ((1, 30), 0, true).
+Proof. intros H. revert H. vm_compute. intros H. first [discriminate H | repeat split; reflexivity]. Qed.
